@@ -8,6 +8,7 @@
    stream `mini`: line = `<fuel> <n> q₁ … qₙ main ||| <wire input>` with queries in prefix form
         id | c <wire value> | pipe a b | comma a b | iter | empty | arr q | param | call <f> a
         | error | try b | trycatch b h | index <wire key> | ite c a b | alt l r | var <x> | bind <x> src body
+        | reduce <x> src init upd | foreach <x> src init upd ext
      answer: `<instructions of compileProg, scope ids and registers renumbered by first
      appearance> ||| <outputs of the mini VM> END` (or `ERR msg s<hex>`), `?…` when not covered. -/
 import Gojq.Model.Stack
@@ -103,6 +104,11 @@ partial def pQ : List String → Option (Q × List String)
   | "alt" :: r => do let (a, r) ← pQ r; let (b, r) ← pQ r; pure (.alt a b, r)
   | "var" :: x :: r => do let x ← x.toNat?; pure (.var x, r)
   | "bind" :: x :: r => do let x ← x.toNat?; let (a, r) ← pQ r; let (b, r) ← pQ r; pure (.bind x a b, r)
+  | "reduce" :: x :: r => do
+    let x ← x.toNat?; let (a, r) ← pQ r; let (b, r) ← pQ r; let (c, r) ← pQ r; pure (.reduce x a b c, r)
+  | "foreach" :: x :: r => do
+    let x ← x.toNat?; let (a, r) ← pQ r; let (b, r) ← pQ r; let (c, r) ← pQ r; let (d, r) ← pQ r
+    pure (.foreach x a b c d, r)
   | _ => none
 
 partial def pQs : Nat → List String → Option (List Q × List String)
